@@ -58,6 +58,16 @@ def gen_case(rnd, tier, index):
             ops = [o for o in ops if o['op'] != 'restart']
             for _ in range(rnd.choice((1, 1, 2))):
                 ops.insert(rnd.randint(0, max(0, len(ops) // 2)), {'op': 'poke', 'a': q})
+            dag = wbgen.Dag(spec)
+            consts = [a for a in dag.constants() if a not in spec.get('pinned', ())]
+            forms = [a for a in dag.formulas() if not dag.cell[a].get('poison') and
+                     'cse' not in dag.cell[a]]
+            if consts and forms and rnd.random() < 0.4:
+                # ... or the caller names an output that does not exist next to good ones
+                ops.insert(rnd.randint(0, max(0, len(ops) // 2)),
+                           {'op': 'poke', 'kind': 'trim', 'a': forms[0],
+                            'inputs': [rnd.choice(consts)],
+                            'outputs': rnd.sample(forms, min(2, len(forms))) + ['Missing!A1']})
     return history.legalise({'spec': spec, 'cfg': cfg, 'ops': ops})
 
 
